@@ -43,8 +43,11 @@ LEVEL_TEXT = ("proof.  GENERAL (all degrees, knot vectors, multiplicities, order
               "span incl. its left knot, left derivatives at the closed domain end for curves; order-0 entry = evaluated point; tangent vectors are the "
               "derivatives of the evaluated point and the normal is the cross product of the two true partials, orthogonal to both, unit length over R; "
               "hodograph control-point formula; the ALTERNATIVE evaluators (A3.3/A3.4, A3.7/A3.8) equal the default ones for all degrees and orders (derivative "
-              "control points represent the k-th derivative: iterated Abel summation).  ONLY TIED BY CORRESPONDENCE against the exact piecewise-polynomial "
-              "Fraction oracle: the hodograph objects (derivative_curve/derivative_surface as shapes), volumes have no "
+              "control points represent the k-th derivative: iterated Abel summation).  The hodograph OBJECTS (Proofs/HodographObj.v, [G]): "
+              "derivative_curve returns a valid curve of degree p-1 on U[1:-1] whose evaluated point is the first-derivative row of the evaluator and "
+              "the true derivative of the evaluated point of the input; derivative_surface returns three valid surfaces whose points are S_u, S_v, S_uv "
+              "= the true (mixed) partials, on the half-open domain.  ONLY TIED BY CORRESPONDENCE against the exact piecewise-polynomial "
+              "Fraction oracle: hodographs at the closed right end, rational inputs of the constructors (returned unchanged); volumes have no "
               "derivative API.  Three input classes of the hodograph constructors are recorded known findings (degree-1 shapes, knot of multiplicity = degree)")
 LEVEL_NOTE = ("theorems are about the hand-written Gallina model (Model/Derivs.v, Model/Basis.v), tied to evaluators.py/helpers.py/operations.py "
               "by the sampled correspondence check; the oracle differentiates the exact polynomial pieces (interpolated from exact Cox-de Boor "
